@@ -18,6 +18,9 @@ ENGINES = {
     "coq-clone": ("coq/clone", "value-level and location-labelled transcription of clone.go"),
     "coq-attempts": ("coq/attempts", "functional model of one action run (actions.go + Backoff.Retry) and its observable automaton"),
     "coq-select": ("coq/select", "row-wise store model + transcription of execute/recovery.go (search, filter, lastUpdate, agedOut) + tree-level specification"),
+    "coq-store": ("coq/store", "row-level models of the sqlite and cosmosdb vaults refining an association-list specification"),
+    "coq-query": ("coq/query", "query AST + transcription of Exists/Search/buildSearchQuery/List of both back ends"),
+    "coq-engine": ("coq/engine", "observable automaton of internal/execute/sm (shared by C01-C04, C06-C08; per-property projects coq/c0N on top), with coq/limiter (mechanism models) and coq/smgraph (source-generated state graph)"),
     "coq-api": ("coq/api", "small-step model of Plans.Start / the run goroutine / Wait, Status, Plan, Submit"),
     "coq-validate": ("coq/validate", "transcription of workflow.Validate (BFS queue, shared key set), Defaults, Submit, validateStartState + declarative WF"),
 }
@@ -126,6 +129,57 @@ CHECKS["C11"] = dict(
          "errors during recovery are not modelled; what a resumed plan then does is C09/C10",
     technique="Coq proof (persist-by-key write semantics, specification by direct tree recursion) + differential correspondence with property monitor",
     design="DESIGN.md section 6 C11, section 13")
+
+STORE_NOTE = ("the theorem domain is ops_ok / cops_ok (created plans have pairwise distinct non-nil ids across the tree: what C16 guarantees); "
+              "the request/response codec round trip dec (enc x) = Some x is a premise; SQLite transaction semantics and Cosmos per-partition "
+              "batch atomicity are trusted; cosmosdb is tied only through the package's fake client (objects keyed by id, order tied separately "
+              "through the emitted items); ")
+CHECKS["C13"] = dict(
+    engine="coq-store",
+    text="Coq theorems: the executable models of the sqlite vault (five tables, commit/fetch/update/delete as the SQL statements are "
+         "written, ORDER BY pos, time sentinels) and of the cosmosdb vault (items per partition, patch by path, two batches) REFINE an "
+         "association-list specification for ALL operation lists of the stated domain: Read returns exactly what was last written "
+         "(definition, order, state triples, reason, attempts), and None for ids never created or deleted; fetch_commit core lemma. Tied "
+         "to the code by a kernel-checked correspondence: generated op lists on sqlite in-memory, sqlite file-backed and the cosmos fake, "
+         "Read of every id after every op compared with the model evaluated in Coq (vm_compute).",
+    note=STORE_NOTE + "nil == empty inside request/response values (go-json-experiment); instants zero or >= 1970 for sqlite (codec maps earlier instants to zero by design)",
+    technique="Coq proof (refinement to an association-list store; error-propagation inversion lemmas; permutation/sorting for the ordered action query) + differential correspondence",
+    design="DESIGN.md section 6 C13, section 13")
+CHECKS["C14"] = dict(
+    engine="coq-store",
+    text="Coq theorems over the same models: Create is all-or-nothing (Ok: read = Some p and exactly the plan's rows appended; Err: database "
+         "unchanged — in particular for an unencodable request or attempt at ANY position, or an existing id), unique, and Delete removes "
+         "every row of that plan and nothing else on every reachable database; for cosmosdb the same per plan partition, and the two-batch "
+         "gap (search batch fails => Err although the plan is readable) is a proved negative result. Correspondence: unencodable values "
+         "planted at every action position, duplicates, interleaved creates/deletes, primary-key collisions, fault toggles; result class, "
+         "Reads and ROW COUNTS PER TABLE PER plan_id through a direct SQL connection; thorough: process kill during Submit.",
+    note=STORE_NOTE + "kill instants are sampled, not controlled; C14 for cosmosdb holds for the plan partition only (documented by its authors; c14_cosmos_two_batch_gap)",
+    technique="Coq proof (transaction monad with rollback; success/inversion lemmas for every nested commit) + differential correspondence with row counts",
+    design="DESIGN.md section 6 C14, section 13")
+CHECKS["C15"] = dict(
+    engine="coq-query",
+    text="Coq theorems over the transcription of Exists / Search / buildSearchQuery / List of both back ends for ALL histories, filters and "
+         "limits: Exists is true exactly for ids created and not deleted; Search rejects the empty filter and otherwise streams exactly "
+         "the matching stored plans newest-first (ties in any order) and then closes; List is a LIMIT-prefix of a newest-first arrangement; "
+         "Running plans are always found; the check's monitors are proved equivalent to the specification. Tied to the code by a "
+         "kernel-checked correspondence on generated vault histories (sqlite in memory and file-backed, cosmosdb fake, raw search items "
+         "incl. swarm, and the Search and List query TEXTS parsed and evaluated in Coq).",
+    note="SQLite and the Cosmos query engine are trusted to implement the query AST; harness parser for the Cosmos SQL subset; cosmos "
+         "results through the fake compared as sets; not covered: context cancellation mid-stream, consumers abandoning a stream",
+    technique="Coq proof (semantic evaluation of the emitted query AST, sort and permutation lemmas, monitor exactness) + differential correspondence with property monitors",
+    design="DESIGN.md section 6 C15, section 13")
+CHECKS["C02"] = dict(
+    engine="coq-engine",
+    text="Coq theorems: for EVERY shape, trace and interleaving accepted by the observable engine automaton, at every prefix at most "
+         "Concurrency sequences of a block have an action in flight and no two blocks have one together (c02_concurrency_bound, "
+         "c02_every_prefix, c02_durable_bound); the automaton's launch guard is proved to be the guard that the detailed limiter + pool + "
+         "WaitGroup mechanism model enforces on all its interleavings (limiter_refines + the C02 tie theorems). Tied to the code by trace "
+         "acceptance + the independent monitor mon_conc evaluated on every real trace (profile conc: parked sequences, probe; several plans "
+         "on one Workstream), kernel-checked with vm_compute, and by the statement-by-statement source-shape tie of ExecuteSequences.",
+    note="in flight excludes attempts the engine timed out (plugin contract); Concurrency <= 0 -> 1 is C16; the implementation's schedules "
+         "are steered (director) and sampled, not enumerated",
+    technique="Coq proof (product invariant over the observable automaton; refinement link to the detailed limiter model) + trace-acceptance correspondence",
+    design="DESIGN.md section 6 C02, section 13")
 
 PENDING_REASON = "check under construction in this session (see DESIGN.md section 12 build order); not yet claimed"
 
